@@ -116,3 +116,17 @@ pub fn game_with_len(len: usize) -> Game {
     g
 }
 pub fn grow_by_one(g: &mut Game) { let n = g.state.len(); unsafe { g.state.set_len(n + 1); } }
+
+/// like sym_game, but the state stack has a SYMBOLIC length 2..=511: the top entry and the one below it
+/// are arbitrary bytes, all lower entries are whatever the (uninitialised) buffer holds
+pub fn sym_game_anylen(endgame_king: bool) -> Game {
+    let mut g = sym_game(0, endgame_king);
+    let len = nd::u16() as usize;
+    nd::assume(2 <= len && len <= 511);
+    unsafe {
+        g.state.set_len(len);
+        g.state.as_mut_ptr().add(len - 1).write(gs::mk(nd::u8()));
+        g.state.as_mut_ptr().add(len - 2).write(gs::mk(nd::u8()));
+    }
+    g
+}
